@@ -2152,7 +2152,7 @@ def obj_method(ex, obj: ObjV, name, args, kwargs, node):
     if name == "clone":
         # sktime: clone() == type(self)(**self.get_params(deep=False)): a fresh,
         # unfitted object constructed from the hyper-parameter attributes
-        ex.emit("clone", node, obj=obj)
+        ev_ = ex.emit("clone", node, obj=obj)
         if obj.cls is not None and not obj.abstract:
             init = ex.P.lookup_method(obj.cls, "__init__")
             kw = {}
@@ -2162,6 +2162,7 @@ def obj_method(ex, obj: ObjV, name, args, kwargs, node):
                         kw[p] = obj.fields[p]
             new = ex.new_object(obj.cls, [], kw, node)
             new.meta["clone_of"] = obj
+            ev_.data["new"] = new
             return new
         ex.obj_counter += 1
         new = ObjV(obj.cls, f"clone({obj.key})#{ex.obj_counter}", {}, abstract=True, role=obj.role)
@@ -2175,6 +2176,7 @@ def obj_method(ex, obj: ObjV, name, args, kwargs, node):
                 new.fields[k] = v
         new.meta.update({kk: vv for kk, vv in obj.meta.items() if kk in ("ncols",)})
         new.meta["fitted_on"] = "UNFITTED"
+        ev_.data["new"] = new
         return new
     if name == "set_params":
         # sktime: set_params(**kw) sets the attributes and re-runs __init__ (reset)
